@@ -15,7 +15,8 @@ ASSUMPTIONS = {
         "assumed contract: NtHashIterator::new (iterator adapters) == fold fh_n/rh_n; cross-checked per k by Kani against index-loop mirrors that Verus proves equal to the folds for every k",
     ],
     "C02": KMER_COMMON + [
-        "external/trusted: record order, line wrapping and gzip are handled by needletail's parser; 'permuting samples permutes columns' lives in MergeSkaDict::append (hashbrown) - not decided",
+        "external/trusted: record order, line wrapping and gzip are handled by needletail's parser; that MergeSkaDict::append / merge keep columns apart is the bounded C07 check (hashbrown re-bound to a stand-in), not decided here",
+        "bounded (never counted as proved): multi_append / parallel_append (column arithmetic of the parallel build) verbatim in a fragment crate, <= 8 input files, recursion depth 1..3, offset <= 2. R3 (unit pappend_k, assumed contracts on dependencies): rayon::join(a, b) == (a(), b()); SkaDict::new / MergeSkaDict reduced to recording stand-ins (column index, name, number of inputs per column); String -> small integer; the type alias InputFastx is restated, not extracted; the depth build_and_merge passes (f64 log2/floor of the thread count) is unverified glue",
         "the dictionary is the union over windows of the canonical (k-mer, middle) pairs with IUPAC accumulation: accumulation order-independence is the complete Kani enumeration of the IUPAC table; the map update itself is hashbrown glue",
     ],
     "C04": [
@@ -64,7 +65,7 @@ ASSUMPTIONS = {
         "not decided: row order and k_bits / ska_version as hidden state; (de)serialisation (C09); later commands as functions of the content",
     ],
     "C12": KMER_COMMON + [
-        "not decided: KmerFilter::filter's hashbrown count table (the `== min_count` threshold); the < 0.1% collision statement is probabilistic",
+        "KmerFilter::filter is checked by Kani on its verbatim text in a fragment crate (unit countfrag_k). R3 (assumed contract on a dependency): hashbrown::HashMap's entry()/and_modify()/or_insert() behave as an association list without duplicate keys (3 inline slots; one call touches one key, the table is projected onto that key and one other); SplitKmer reduced to the hash get_hash() returns, UInt to a marker trait; one bloom word in the harness (the frame over other words is bloom_add_and_check's Verus contract). What filter returns once the count is exceeded is left open (adding again is idempotent). The < 0.1% collision statement is probabilistic: not decided",
         "the read-filter condition of add_file_kmers (quality rule consulted before, and as a guard of, the counting filter) is checked by Kani on the lifted condition with KmerFilter::filter stubbed, for one read of length k = 5; the needletail loop and the dictionary insertion around it are unverified glue",
         "assumed contract: KmerFilter::cheap_mix (wrapping_mul) is an arbitrary but fixed function of the key (external_body, uninterpreted mix_spec)",
         "R13: `self.buffer[i].borrow_mut()` rewritten to `&mut self.buffer[i]` (blanket identity impl)",
